@@ -441,4 +441,12 @@ def rule_d(ctx):
     c03c(ctx)
 
 
-RULES = [('C05.a', rule_a), ('C05.b', rule_b), ('C05.c', rule_c), ('C05.e', rule_e), ('C05.f', rule_f)]
+def rule_g(ctx):
+    """Only the frame picker takes frames out of the send queue (shared C01.c): a second consumer - a purge on cancel,
+    say - can remove a fragment source whose first fragments are already on the wire."""
+    from .c01 import rule_c as c01c
+    c01c(ctx)
+
+
+RULES = [('C05.a', rule_a), ('C05.b', rule_b), ('C05.c', rule_c), ('C05.e', rule_e), ('C05.f', rule_f),
+         ('C01.c', rule_g)]
